@@ -879,6 +879,7 @@ class Parser:
         # Issue #217: Collect any comments at column 0 before first indented child
         # These are orphan comments that appear between section header and children
         pre_indent_comments: list[str] = []
+        pre_indent_pos = self.pos
         while self.current().type in (TokenType.COMMENT, TokenType.NEWLINE):
             if self.current().type == TokenType.COMMENT:
                 pre_indent_comments.append(self.current().value)
@@ -970,11 +971,11 @@ class Parser:
                 for comment_text in pending_comments:
                     children.append(Comment(text=comment_text))
         else:
-            # Issue #217: No indented children, but may have pre-indent comments
-            # Add them as orphan comments in the section
-            if pre_indent_comments:
-                for comment_text in pre_indent_comments:
-                    children.append(Comment(text=comment_text))
+            # No indented children follow: column-0 comments after the header are not inside
+            # the section.  Leave them to the enclosing level, where they become the leading
+            # comments of the next node (or document trailing comments), exactly where the
+            # emitter writes them back; capturing them here made canonical text unstable.
+            self.pos = pre_indent_pos
 
         return Section(
             section_id=section_id,
